@@ -102,6 +102,8 @@ Definition Confined (allowed : list string) (seed_s init_s : string) (t : list e
      | DefaultRng b | RandomStateCtor b => b = true
      | _ => False
      end) /\
+  (forall site g, In (ESeedGuard site g) t -> g = GIsNone) /\
+  ((exists site, In (ERand site SeedFromNumpy) t) -> In (ESeedGuard seed_s GIsNone) t) /\
   (forall site k, In (ESetIter site k) t -> k <> SOtherSink) /\
   (forall site a, In (EPoolRead site a) t -> In site allowed) /\
   (forall site a, In (EPoolWrite site a) t -> In a pool_state) /\
@@ -118,17 +120,25 @@ Lemma rng_confined_sound allowed seed_s init_s t :
 Proof.
   unfold rng_confined. intros H.
   apply andb_prop in H. destruct H as [H H5]. apply andb_prop in H. destruct H as [H H4].
-  apply andb_prop in H. destruct H as [H H3]. apply andb_prop in H. destruct H as [H1 H2].
+  apply andb_prop in H. destruct H as [H H3]. apply andb_prop in H. destruct H as [H H2].
+  apply andb_prop in H. destruct H as [H1 H6].
   rewrite forallb_forall in H1, H5. unfold Confined. repeat split.
   - intros site s Hin. specialize (H1 _ Hin). specialize (H5 _ Hin). cbn in H1, H5.
     destruct s; cbn in *; try discriminate; auto; now apply String.eqb_eq in H5.
+  - intros site g Hin. specialize (H1 _ Hin). cbn in H1. destruct g; congruence.
+  - intros [site Hin]. apply orb_prop in H6. destruct H6 as [H6|H6].
+    + apply negb_true_iff in H6. assert (E : existsb is_seed_gen t = true).
+      { apply existsb_exists. exists (ERand site SeedFromNumpy). split; [exact Hin|reflexivity]. }
+      congruence.
+    + apply existsb_exists in H6. destruct H6 as [e [Hine He]]. destruct e as [s g| | | | |]; try discriminate.
+      destruct g; try discriminate. cbn in He. apply String.eqb_eq in He. now subst.
   - intros site k Hin. specialize (H1 _ Hin). cbn in H1. destruct k; cbn in H1; congruence.
   - intros site a Hin. specialize (H1 _ Hin). cbn in H1. now apply mem_In.
   - intros site a Hin. specialize (H1 _ Hin). cbn in H1. now apply mem_In.
-  - apply existsb_exists in H2. destruct H2 as [e [Hin He]]. destruct e as [s r| | | |]; try discriminate.
+  - apply existsb_exists in H2. destruct H2 as [e [Hin He]]. destruct e as [|s r| | | |]; try discriminate.
     destruct r; try discriminate. cbn in He. apply String.eqb_eq in He. now subst.
-  - apply existsb_exists in H3. destruct H3 as [e [Hin He]]. destruct e as [s r| | | |]; try discriminate.
+  - apply existsb_exists in H3. destruct H3 as [e [Hin He]]. destruct e as [|s r| | | |]; try discriminate.
     destruct r; try discriminate. cbn in He. apply String.eqb_eq in He. now subst.
-  - apply existsb_exists in H4. destruct H4 as [e [Hin He]]. destruct e as [| | | |s]; try discriminate.
+  - apply existsb_exists in H4. destruct H4 as [e [Hin He]]. destruct e as [| | | | |s]; try discriminate.
     cbn in He. apply String.eqb_eq in He. now subst.
 Qed.
